@@ -8,6 +8,8 @@ from enum import IntEnum
 import time
 from typing import TYPE_CHECKING, Any
 
+from awesomeversion.exceptions import AwesomeVersionException
+
 from aiomysensors.exceptions import (
     InvalidMessageError,
     MissingChildError,
@@ -250,7 +252,10 @@ class IncomingMessageHandler(IncomingMessageHandlerBase):
         message_buffer: MessageBuffer,  # noqa: ARG003
     ) -> Message:
         """Process an internal version message."""
-        gateway.protocol_version = message.payload
+        try:
+            gateway.protocol_version = message.payload
+        except (AwesomeVersionException, ValueError) as err:
+            raise InvalidMessageError(err, message) from err
         return message
 
     @classmethod
